@@ -31,7 +31,7 @@ type VerifRule struct {
 	Op     string `json:"op"`     // "r" | "w"
 	From   int    `json:"from"`   // first matching operation the rule applies to (1-based; 0 = 1)
 	To     int    `json:"to"`     // last one (0 = forever)
-	Action string `json:"action"` // fail | ignore | content | stick
+	Action string `json:"action"` // fail | fail-atomic | ignore | content | stick
 	Errno  string `json:"errno,omitempty"`
 	Raw    string `json:"raw,omitempty"` // content for action "content"
 	Val    int    `json:"val,omitempty"` // value stored instead for action "stick"; number of levels for action "quant"
@@ -304,7 +304,8 @@ func (d *VerifDriverT) write(value int, path string, atomicWrite bool) (err erro
 	rule := d.match("w", path, value)
 	store := value
 	switch {
-	case rule != nil && rule.Action == "fail":
+	case rule != nil && (rule.Action == "fail" || (rule.Action == "fail-atomic" && atomicWrite)):
+		// "fail-atomic": the file cannot be replaced (bind mount, directory without create permission) but written in place
 		err = &fs.PathError{Op: "write", Path: path, Err: verifErrno(rule.Errno)}
 		ev.Action = "fail"
 	case rule != nil && rule.Action == "ignore":
